@@ -245,6 +245,7 @@ func runWatcherHistory(ctx context.Context, p *plan.Plan, w *world.World, lg *su
 		}
 	}
 	started := false
+	noTakePending := false
 	for i, st := range ls.Steps {
 		if st.Doc >= len(p.Scen.RawDocs) {
 			continue
@@ -285,15 +286,42 @@ func runWatcherHistory(ctx context.Context, p *plan.Plan, w *world.World, lg *su
 			synctest.Wait()
 		} else {
 			if !st.NoEvent {
-				events <- fsn.Event{Name: target, Op: fsn.Write}
-				synctest.Wait()
+				select {
+				case events <- fsn.Event{Name: target, Op: fsn.Write}:
+				default:
+					// the watch loop is busy (publishing to a consumer that does not take): the
+					// notifier's event is not picked up now
+					w.Rec(world.Ev{Actor: "loader", Kind: "watch-event-not-taken", A: int64(i)})
+				}
+				if !st.NoTake && !noTakePending {
+					synctest.Wait()
+				}
 			}
 			time.Sleep(1100 * time.Millisecond) // past the watch loop's tick
-			synctest.Wait()
+			// for the race detector Wait orders everything the bubble's goroutines did before
+			// it with everything after it: around unconsumed publications it is left out, so
+			// that two reloads are only ordered if the watcher orders them itself
+			if !st.NoTake {
+				synctest.Wait()
+			}
+		}
+		if st.NoTake {
+			w.Rec(world.Ev{Actor: "loader", Kind: "watch-step", A: int64(i), S: "no-take"})
+			noTakePending = true
+			continue
 		}
 		pub := take()
 		r.Fresh, r.FreshErr = fresh()
 		main := st.Sibling == "" && !st.NoEvent
+		if noTakePending {
+			// publications of earlier, unconsumed steps are among these: only the last one
+			// can be judged against the file as it is now
+			noTakePending = false
+			if len(pub) > 1 {
+				pub = pub[len(pub)-1:]
+			}
+			main = false
+		}
 		for _, v := range pub {
 			r.Old = v
 			if r.FreshErr != "" {
